@@ -55,6 +55,18 @@ def gen_prov(D, max_tasks=8):
     else:
         prog, outc = G.gen_direct(D, F, max_tasks)
     prog['input'] = {}
+    # fallback sources of the statement: a leaf nobody published resolves to
+    # the workflow input default or to a workflow variable (never both for
+    # one name: their mutual precedence is not documented)
+    prog['fallback'] = {}
+    for v in ('x', 'y'):
+        r = D.int(0, 5)
+        if r == 0:
+            prog['input'][v] = 'in:%s' % v
+            prog['fallback'][v] = 'in:%s' % v
+        elif r == 1:
+            prog.setdefault('vars', {})[v] = 'var:%s' % v
+            prog['fallback'][v] = 'var:%s' % v
     lang = prog['lang']
     for nm in prog['order']:
         t = prog['tasks'][nm]
@@ -214,6 +226,11 @@ def gen_diamond(D, G):
     return prog, outc
 
 
+def _fallback(prog, leaf):
+    fb = (prog.get('fallback') or {}).get(leaf)
+    return {fb} if fb is not None else {None, 'none'}
+
+
 def _leaf(pub, leaf):
     cur = pub
     for k in leaf.split('.'):
@@ -303,7 +320,7 @@ def check_prov(case, stats=None):
             pubs, maximal = expected(anc, leaf)
             seen = visible[tid].get(leaf)
             allowed = {_leaf(tasks[p]['published'], leaf) for p in maximal} \
-                if maximal else {None, 'none'}
+                if maximal else _fallback(prog, leaf)
             if len(pubs) > len(maximal) and len(parents.get(tid, [])) >= 2:
                 nontriv = True
             if seen not in allowed:
@@ -395,7 +412,7 @@ def check_prov(case, stats=None):
             pubs, maximal = expected(sink_anc, leaf)
             seen = (root['output'] or {}).get(leaf)
             allowed = {_leaf(tasks[p]['published'], leaf) for p in maximal} \
-                if maximal else {None, 'none'}
+                if maximal else _fallback(prog, leaf)
             if seen not in allowed:
                 viol.append({'kind': 'workflow-output-stale-or-wrong',
                              'detail': {
